@@ -1,6 +1,29 @@
 //@@ unit props=C16,C17,C07,C01,C06,C14
 // Unit xlsxwb: workbook-level plumbing of the xlsx reader (src/xlsx/mod.rs), verbatim text, under contract against a GHOST MODEL of
 // quick-xml and zip (assumptions A-xml / A-zip of DESIGN.md section 5).
+//
+// Functions under contract (real text, extracted by byte span):
+//   Xlsx::worksheet_cells_reader   C07 exact-name lookup (first sheet with exactly this name), unknown name / missing part => WorksheetNotFound,
+//                                  frame (all loaded state + header-row option), reader built from (part of that sheet, strings, formats,
+//                                  is_1904) only; C16 the date-system flag is what the reader gets
+//   Xlsx::get_table_meta, table_by_name, table_by_name_ref
+//                                  C17 entry with exactly this table name (first), name / sheet / columns copied, data == window of the
+//                                  sheet's range over the stored dimensions (Range::range: assumed contract of unit range); unknown table =>
+//                                  TableNotFound; C07 frame on Ok AND Err paths incl. the header-row option
+//   Xlsx::read_workbook            C16 sheets / sheet metadata / defined names / date1904 == the schema-directed reading `wb_scan` of the event
+//                                  sequence (ECMA-376 18.2.27), for encodings with the main namespace as default namespace, conventional
+//                                  relationship prefix, no CDATA; the clauses WITHOUT those hypotheses are the property's and fail (findings)
+//   Reader::worksheet_formula      C14 result == from_sparse(cells with non-empty formula text), C07 frame, C06 reserve cap
+//   Xlsx::read_table_metadata      C06 no panic (entry), C07 frame, C17 the header / totals arithmetic (one spliced assertion); the XML
+//                                  plumbing (which parts, attribute values) is NOT specified
+//   InnerTableMetadata::new, Range::is_empty, Range::empty (small)
+// TRUSTED (all marked below): the quick-xml / zip stand-ins (section A-xml / A-zip), XlsxCellReader (callee; other units), Range::range /
+// from_sparse / new / width and Dimensions::len (external_body; proved or Kani-checked in units range / lazyrange), worksheet_range(_ref)
+// (callee contract incl. frame), get_dimension (callee), std specifications (section A-std), byte-literal contents (axiom_bytelits).
+// Declared rewrites (logged): byte-string literal patterns -> binding + guard (Verus crashes on them), `map_err(Variant)` eta-expanded,
+// `format!("xl/{}", r)` and `path.split('/').nth(1)` -> assumed helpers with the same arguments, `&(n, _)` closure pattern -> `(n, _)`,
+// two `for` loops containing `continue` desugared (R6), format! -> opaque string in read_table_metadata (R4).
+// Genuine findings: findings/xlsxwb.json (native demonstrations findings/xlsxwb_1..8.rs).
 #![feature(pattern)]
 #![allow(unused_imports, dead_code, unused_variables, unused_mut, unused_assignments, unexpected_cfgs)]
 use vstd::prelude::*;
@@ -66,6 +89,17 @@ impl vstd::std_specs::convert::FromSpecImpl<quick_xml::events::attributes::AttrE
     open spec fn from_spec(e: quick_xml::events::attributes::AttrError) -> Self { XlsxError::XmlAttribute(e) }
 }
 
+impl From<quick_xml::encoding::EncodingError> for XlsxError { fn from(e: quick_xml::encoding::EncodingError) -> (r: XlsxError) ensures r == XlsxError::Encoding(e) { XlsxError::Encoding(e) } }
+impl vstd::std_specs::convert::FromSpecImpl<quick_xml::encoding::EncodingError> for XlsxError {
+    open spec fn obeys_from_spec() -> bool { true }
+    open spec fn from_spec(e: quick_xml::encoding::EncodingError) -> Self { XlsxError::Encoding(e) }
+}
+impl From<std::num::ParseIntError> for XlsxError { fn from(e: std::num::ParseIntError) -> (r: XlsxError) ensures r == XlsxError::ParseInt(e) { XlsxError::ParseInt(e) } }
+impl vstd::std_specs::convert::FromSpecImpl<std::num::ParseIntError> for XlsxError {
+    open spec fn obeys_from_spec() -> bool { true }
+    open spec fn from_spec(e: std::num::ParseIntError) -> Self { XlsxError::ParseInt(e) }
+}
+
 // =====================================================================================================================
 // A-std: assumed specifications of std functions the verified text calls (one line of documented behaviour each)
 // =====================================================================================================================
@@ -107,6 +141,11 @@ pub assume_specification<'a, T, P: FnMut(&<std::slice::Iter<'a, T> as Iterator>:
             None => rejects(iter_rem(old(it)), |y: &'a T| call_ensures(pred, (&y,), false), iter_rem(old(it)).len() as int),
         };
 
+// `into_rem`: same device for `vec::IntoIter` (used as loop measure where a `for` loop is desugared by rule R6)
+pub uninterp spec fn into_rem<T>(it: &std::vec::IntoIter<T>) -> Seq<T>;
+#[verifier::external_body]
+pub broadcast proof fn axiom_into_rem<T>(it: &std::vec::IntoIter<T>)
+    ensures #[trigger] into_rem(it) == IteratorSpec::remaining(it) {}
 // TRUSTED: A-std -- `impl<T: Clone> ToOwned for T`: "to_owned" is `clone`
 pub assume_specification<T: Clone>[ <T as std::borrow::ToOwned>::to_owned ](x: &T) -> (r: T)
     ensures call_ensures(<T as Clone>::clone, (x,), r);
@@ -161,6 +200,32 @@ pub broadcast axiom fn axiom_string_index_req_full(s: &String)
     ensures #[trigger] <String as IndexSpec<RangeFull>>::index_req(s, &RangeFull);
 pub broadcast axiom fn axiom_str_index_req_from(s: &str, r: RangeFrom<usize>)
     ensures ascii_prefix(s@, r.start as int) ==> #[trigger] <str as IndexSpec<RangeFrom<usize>>>::index_req(s, &r);
+// TRUSTED: A-std -- `str::parse::<F>()` (no claim on the value: the attribute parsing of read_table_metadata is not specified here)
+#[verifier::external_trait_specification] pub trait ExFromStr: Sized { type ExternalTraitSpecificationFor: std::str::FromStr; type Err; }
+pub assume_specification<F: std::str::FromStr>[ str::parse::<F> ](s: &str) -> (r: Result<F, <F as std::str::FromStr>::Err>);
+// TRUSTED: A-std -- `Cow::into_owned`: the owned content (for Cow<str>: the same characters)
+pub uninterp spec fn cow_owned<'a, B: ?Sized + ToOwned>(c: Cow<'a, B>) -> <B as ToOwned>::Owned;
+pub assume_specification<'a, B: ?Sized + ToOwned>[ <Cow<'a, B>>::into_owned ](c: Cow<'a, B>) -> (r: <B as ToOwned>::Owned)
+    ensures r == cow_owned(c);
+pub broadcast axiom fn axiom_cow_str_owned<'a>(c: Cow<'a, str>)
+    ensures (#[trigger] cow_owned::<str>(c))@ == cow_ref(&c)@;
+// TRUSTED: A-std -- `String::as_bytes` (UTF-8 encoding of the content)
+pub assume_specification[ String::as_bytes ](s: &String) -> (r: &[u8])
+    ensures r@ == vstd::utf8::encode_utf8(s@);
+// TRUSTED: A-std -- `str::rfind(char)`: "Returns the byte index for the first character of the last match of the pattern": a character
+// boundary inside the string (no claim here on which one)
+pub uninterp spec fn pat_occurs<P>(p: P, s: Seq<char>) -> bool;
+pub broadcast axiom fn axiom_pat_occurs_char(c: char, s: Seq<char>)
+    ensures #[trigger] pat_occurs::<char>(c, s) == s.contains(c);
+#[verifier::allow(undeclared_external_trait)]
+pub assume_specification<P: std::str::pattern::Pattern>[ str::rfind ](s: &str, p: P) -> (r: Option<usize>)
+    where for<'a> <P as std::str::pattern::Pattern>::Searcher<'a>: std::str::pattern::ReverseSearcher<'a>
+    ensures
+        r is Some <==> pat_occurs(p, s@),
+        r is Some ==> vstd::utf8::is_char_boundary(vstd::utf8::encode_utf8(s@), r->Some_0 as int);
+// TRUSTED: A-std -- `&s[..n]` at a character boundary does not panic
+pub broadcast axiom fn axiom_str_index_req_to(s: &str, r: std::ops::RangeTo<usize>)
+    ensures vstd::utf8::is_char_boundary(vstd::utf8::encode_utf8(s@), r.end as int) ==> #[trigger] <str as IndexSpec<std::ops::RangeTo<usize>>>::index_req(s, &r);
 // TRUSTED: A-std -- `<[T]>::contains`: "Returns true if the slice contains an element with the given value" (`peq`: PartialEq of T;
 // for &str: same characters)
 pub uninterp spec fn peq<T>(a: T, b: T) -> bool;
@@ -430,8 +495,19 @@ impl<'a> LocalName<'a> {
     #[verifier::external_body]
     pub fn as_ref(&self) -> (r: &[u8]) ensures r@ == self.bytes() { unimplemented!() }
 }
-// TRUSTED: A-xml -- quick_xml::encoding::Decoder (UTF-8 unless the XML declaration says otherwise; folded into `unesc`)
+// TRUSTED: A-xml -- quick_xml::encoding::Decoder (UTF-8 unless the XML declaration says otherwise; folded into `unesc` / `dec`)
 pub struct Decoder { _p: u8 }
+/// raw bytes decoded (no entity resolution): what `decoder().decode(bytes)` returns; None: encoding error
+pub uninterp spec fn dec(raw: Seq<u8>) -> Option<Seq<char>>;
+impl Decoder {
+    // TRUSTED: A-xml
+    #[verifier::external_body]
+    pub fn decode<'b>(&self, bytes: &'b [u8]) -> (r: Result<Cow<'b, str>, quick_xml::encoding::EncodingError>)
+        ensures
+            dec(bytes@) is Some ==> r is Ok && cow_ref(&r->Ok_0)@ == dec(bytes@)->Some_0,
+            dec(bytes@) is None ==> r is Err,
+    { unimplemented!() }
+}
 // TRUSTED: A-xml -- quick_xml::events::attributes::Attribute (public fields `key`, `value`: the verified code matches on them)
 pub struct Attribute<'a> { pub key: QName<'a>, pub value: Cow<'a, [u8]> }
 impl<'a> Attribute<'a> {
@@ -463,6 +539,31 @@ impl<'a> Attributes<'a> {
     pub fn filter_map<B, F: FnMut(Result<Attribute<'a>, quick_xml::events::attributes::AttrError>) -> Option<B>>(self, f: F) -> (r: OkAttributes<'a>)
         ensures r.src() == self.items(),
     { unimplemented!() }
+}
+impl<'a> Attributes<'a> {
+    // TRUSTED: A-std + A-xml -- `attributes().flatten()`: the successfully parsed attributes, in order (Iterator::flatten over Result items)
+    #[verifier::external_body]
+    pub fn flatten(self) -> (r: FlatAttributes<'a>)
+        ensures r.items().len() <= self.items().len(),
+    { unimplemented!() }
+}
+// TRUSTED: stand-in for `Flatten<Attributes>`
+#[verifier::external_body]
+pub struct FlatAttributes<'a> { _p: core::marker::PhantomData<&'a ()> }
+impl<'a> FlatAttributes<'a> {
+    pub uninterp spec fn items(&self) -> Seq<Attribute<'a>>;
+}
+impl<'a> Iterator for FlatAttributes<'a> {
+    type Item = Attribute<'a>;
+    #[verifier::external_body]
+    fn next(&mut self) -> (r: Option<Self::Item>) { unimplemented!() }
+}
+impl<'a> IteratorSpecImpl for FlatAttributes<'a> {
+    open spec fn obeys_prophetic_iter_laws(&self) -> bool { true }
+    open spec fn remaining(&self) -> Seq<Attribute<'a>> { self.items() }
+    open spec fn will_return_none(&self) -> bool { true }
+    open spec fn decrease(&self) -> Option<nat> { Some(self.items().len()) }
+    open spec fn peek(&self, i: int) -> Option<Attribute<'a>> { if 0 <= i < self.items().len() { Some(self.items()[i]) } else { None } }
 }
 impl<'a> Iterator for Attributes<'a> {
     type Item = Result<Attribute<'a>, quick_xml::events::attributes::AttrError>;
@@ -860,7 +961,7 @@ pub open spec fn keep_ne(cs: Seq<Cell<String>>) -> Seq<Cell<String>>
                 //# C14.formula_cells_kept_so_far
                 cells@ == keep_ne(stream.take(stream.len() - cell_reader.fml_remaining().len())),
             decreases cell_reader.fml_remaining().len(),
-//@@ before /if !cell\.val\.is_empty\(\)/
+//@@ before /if \S*cell\.val/
             proof {
                 let k = stream.len() - cell_reader.fml_remaining().len() - 1;
                 assert(cell == stream[k]);
@@ -1307,6 +1408,24 @@ proof fn lemma_rel_id_attribute_is_recognised(a: Attr)
 //@@ props C16,C17,C07,C01,C06,C14
 
 
+/// every sheet part name starts with "xl/" (what read_workbook stores: `norm_target`; clause C16.sheet_paths_under_xl there)
+pub open spec fn sheet_paths_under_xl(sh: Seq<(String, String)>) -> bool { forall|i: int| 0 <= i < sh.len() ==> is_prefix("xl/"@, (#[trigger] sh[i]).1@) }
+proof fn witness_sheet_paths_under_xl()
+    ensures sheet_paths_under_xl(Seq::<(String, String)>::empty()),
+{}
+proof fn lemma_norm_target_under_xl(t: Seq<char>)
+    ensures is_prefix("xl/"@, norm_target(t)),
+{
+    reveal_strlit("xl/"); reveal_strlit("/xl/");
+    if is_prefix("/xl/"@, t) {
+        assert(t.subrange(0, 4) == "/xl/"@);
+        assert(t.skip(1).subrange(0, 3) =~= t.subrange(0, 4).subrange(1, 4));
+        assert("/xl/"@.subrange(1, 4) =~= "xl/"@);
+    } else if !is_prefix("xl/"@, t) {
+        assert(("xl/"@ + t).subrange(0, 3) =~= "xl/"@);
+    }
+}
+
 // ---- how the loaded state mirrors the declared workbook
 pub open spec fn ext_sheets(old: Seq<(String, String)>, cur: Seq<(String, String)>, w: Seq<WbSheet>) -> bool {
     &&& cur.len() == old.len() + w.len()
@@ -1347,6 +1466,8 @@ proof fn lemma_date1904_bytes()
             && content(final(self).zip) == content(old(self).zip),
         //# C16.sheets_and_metadata_aligned
         aligned(old(self).sheets@, old(self).metadata.sheets@) ==> aligned(final(self).sheets@, final(self).metadata.sheets@),
+        //# C16.sheet_paths_under_xl
+        sheet_paths_under_xl(old(self).sheets@) ==> sheet_paths_under_xl(final(self).sheets@),
         //# C16.absent_workbook_part
         !has_part(content(old(self).zip), wb_path()) ==> r is Ok && final(self).sheets == old(self).sheets && final(self).metadata == old(self).metadata
             && final(self).is_1904 == old(self).is_1904,
@@ -1421,6 +1542,8 @@ verif_str_split_nth(&path, \g<1>, \g<2>)
                     && self.metadata.names == old(self).metadata.names,
                 //# C16.sheets_and_metadata_aligned_so_far
                 aligned0 ==> aligned(self.sheets@, self.metadata.sheets@),
+                //# C16.sheet_paths_under_xl_so_far
+                sheet_paths_under_xl(sh0) ==> sheet_paths_under_xl(self.sheets@),
                 //# C16.sheets_in_document_order_so_far
                 good ==> ext_sheets(sh0, self.sheets@, st.sheets),
                 //# C16.sheet_metadata_in_document_order_so_far
@@ -1466,6 +1589,7 @@ verif_str_split_nth(&path, \g<1>, \g<2>)
 //@@ loop 1 it
                         invariant
                             attrs_match(it.seq(), at),
+                            path@.len() == 0 || is_prefix("xl/"@, path@),
                             //# C16.sheet_name_state_target_from_attributes
                             good ==> sh_fold(at, it.index@ as int, rels) == Some(ShAcc { name: name@, vis: visible, path: path@ }),
 //@@ before /let a = a\.map_err/
@@ -1493,9 +1617,11 @@ verif_str_split_nth(&path, \g<1>, \g<2>)
                                 proof { axiom_bytes_keyed_map(rels, cow_ref(&v));
                                     if good { assert(__k@ == k_rid() || __k@ == k_relsid()); assert(__k@ == at[k].key); assert(rid_key(at[k])); assert(at[k].key != k_name() && at[k].key != k_state()); assert(cow_ref(&v)@ == at[k].raw); assert(rel_at(rels, at[k].raw) is Some); } }
 //@@ before /let typ = match/
-                    proof { }
+                    proof { reveal_strlit("xl/"); if path@.len() == 0 { assert(find_ch(path@, '/', 0) == 0); assert(split_nth(path@, '/', 1) is None); } }
 //@@ before /path = if r\.starts_with/
                                 proof { reveal_strlit("/xl/"); }
+//@@ after /path = if r\.starts_with[^;]*;/
+                                proof { reveal_strlit("xl/"); lemma_norm_target_under_xl(r@); assert(path@ == norm_target(r@)); }
 //@@ before /r\[1\.\.\]/
                                     proof { assert(pat_chars::<&str>("/xl/") == "/xl/"@); assert(is_prefix("/xl/"@, r@)); assert(r@.subrange(0, 4)[0] == '/'); assert(r@[0] == '/'); assert(ascii_prefix(r@, 1)); }
 //@@ before /self\.metadata\.sheets\.push\(/
@@ -1593,6 +1719,117 @@ verif_str_split_nth(&path, \g<1>, \g<2>)
                             assert(false);
                         }
                     }
+//@@ end
+//@@ endimpl
+
+
+// =====================================================================================================================
+// C17: table metadata.  ECMA-376 Part 1, 18.5.1.2 table (CT_Table): ref = the whole table including header and totals rows;
+// headerRowCount (default 1) rows at the top are header rows, totalsRowCount (default 0) rows at the bottom are totals rows.
+// The XML plumbing of read_table_metadata (relationship parts, attribute parsing) is NOT specified here: the function is under
+// contract for absence of panics (C06) and for the one piece of arithmetic the property names: data range = ref minus header rows
+// at the top and totals rows at the bottom.
+// =====================================================================================================================
+// rule R4: `format!(..)` (outside Verus) becomes an opaque string -- used for the part names read_table_metadata computes, about which
+// nothing is claimed here
+#[verifier::external_body] fn verif_opaque_string() -> String { String::new() }
+// TRUSTED: stand-in for src/xlsx/mod.rs get_dimension (A1 range decoding; under contract in unit a1 / its C06 findings are registered there)
+pub uninterp spec fn dim_of(s: Seq<u8>) -> Option<Dimensions>;
+#[verifier::external_body]
+pub(crate) fn get_dimension(dimension: &[u8]) -> (r: Result<Dimensions, XlsxError>)
+    ensures r is Ok ==> dim_of(dimension@) == Some(r->Ok_0),
+{ unimplemented!() }
+//@@ impl src/xlsx/mod.rs InnerTableMetadata
+//@@ fn src/xlsx/mod.rs InnerTableMetadata::new props=C17 ret=r
+//@@ sig
+    ensures
+        //# C17.table_attribute_defaults
+        r.header_row_count == 1 && r.totals_row_count == 0 && !r.insert_row,
+//@@ end
+//@@ endimpl
+
+//@@ impl src/xlsx/mod.rs Xlsx
+#[verifier::loop_isolation(false)]
+//@@ fn src/xlsx/mod.rs Xlsx::read_table_metadata props=C17,C06 entry ret=r r4
+//@@ sig
+    requires
+        //# C16.sheet_paths_under_xl  (data invariant of `sheets`, established by read_workbook; not a condition on the file)
+        sheet_paths_under_xl(old(self).sheets@),
+    ensures
+        //# C07.load_tables_frame
+        final(self).strings == old(self).strings && final(self).sheets == old(self).sheets && final(self).formats == old(self).formats
+            && final(self).is_1904 == old(self).is_1904 && final(self).metadata == old(self).metadata
+            && final(self).merged_regions == old(self).merged_regions && final(self).options == old(self).options
+            && content(final(self).zip) == content(old(self).zip),
+        //# C17.tables_loaded_or_unchanged
+        r is Ok ==> final(self).tables is Some,
+        r is Err ==> final(self).tables == old(self).tables,
+//@@ replace /Attribute \{\s*key: QName\((b"[^"]*")\),\s*value: v,\s*\}\s*=>/#0of8 Verus crashes on byte-string literal patterns: the slice is bound and compared in a guard (same test, same arm order); the literal is kept verbatim
+Attribute { key: QName(__k), value: v } if __k == \g<1> =>
+//@@ replace /Attribute \{\s*key: QName\((b"[^"]*")\),\s*value: v,\s*\}\s*=>/#1of8 (same)
+Attribute { key: QName(__k), value: v } if __k == \g<1> =>
+//@@ replace /Attribute \{\s*key: QName\((b"[^"]*")\),\s*value: v,\s*\}\s*=>/#2of8 (same)
+Attribute { key: QName(__k), value: v } if __k == \g<1> =>
+//@@ replace /Attribute \{\s*key: QName\((b"[^"]*")\),\s*value: v,\s*\}\s*=>/#3of8 (same)
+Attribute { key: QName(__k), value: v } if __k == \g<1> =>
+//@@ replace /Attribute \{\s*key: QName\((b"[^"]*")\),\s*value: v,\s*\}\s*=>/#4of8 (same)
+Attribute { key: QName(__k), value: v } if __k == \g<1> =>
+//@@ replace /Attribute \{\s*key: QName\((b"[^"]*")\),\s*value: v,\s*\}\s*=>/#5of8 (same)
+Attribute { key: QName(__k), value: v } if __k == \g<1> =>
+//@@ replace /Attribute \{\s*key: QName\((b"[^"]*")\),\s*value: v,\s*\}\s*=>/#6of8 (same)
+Attribute { key: QName(__k), value: v } if __k == \g<1> =>
+//@@ replace /Attribute \{\s*key: QName\((b"[^"]*")\),\s*value: v,\s*\}\s*=>/#7of8 (same)
+Attribute { key: QName(__k), value: v } if __k == \g<1> =>
+//@@ replace /if let Attribute \{\s*key: QName\((b"[^"]*")\),\s*value: v,\s*\} = a\s*\{([^{}]*)\}/ Verus crashes on byte-string literal patterns: the slice is bound by the `if let` and compared in a nested `if` (same test); literal and body kept verbatim
+if let Attribute { key: QName(__k), value: v } = a { if __k == \g<1> {\g<2>} }
+//@@ replace /a\.map_err\((XlsxError::XmlAttr)\)\?/#0of2 Verus: "using a datatype constructor as a function value" unsupported; eta-expanded, same function
+a.map_err(|e| -> (x: XlsxError) ensures x == \g<1>(e) { \g<1>(e) })?
+//@@ replace /a\.map_err\((XlsxError::XmlAttr)\)\?/#1of2 (same)
+a.map_err(|e| -> (x: XlsxError) ensures x == \g<1>(e) { \g<1>(e) })?
+//@@ body
+        broadcast use {axiom_cow_str_owned, axiom_str_index_req_to, axiom_str_index_req_from, axiom_str_index_from, axiom_pat_chars_str, axiom_iter_rem, axiom_into_rem, axiom_pat_occurs_char};
+        proof { reveal_strlit("xl/"); }
+//@@ r6 0 iter /&self\.sheets/ `<&Vec<T> as IntoIterator>::into_iter` is `iter()` (vstd specifies the latter)
+self.sheets.iter()
+//@@ loop 0
+            invariant
+                forall|j: int| 0 <= j < iter_rem(&__it0).len() ==> is_prefix("xl/"@, (#[trigger] iter_rem(&__it0)[j]).1@),
+                self.strings == old(self).strings && self.sheets == old(self).sheets && self.formats == old(self).formats
+                    && self.is_1904 == old(self).is_1904 && self.metadata == old(self).metadata && self.tables == old(self).tables
+                    && self.merged_regions == old(self).merged_regions && self.options == old(self).options
+                    && content(self.zip) == content(old(self).zip),
+            decreases iter_rem(&__it0).len(),
+//@@ r6 3
+//@@ loop 3
+                invariant
+                self.strings == old(self).strings && self.sheets == old(self).sheets && self.formats == old(self).formats
+                    && self.is_1904 == old(self).is_1904 && self.metadata == old(self).metadata && self.tables == old(self).tables
+                    && self.merged_regions == old(self).merged_regions && self.options == old(self).options
+                    && content(self.zip) == content(old(self).zip),
+                decreases into_rem(&__it3).len(),
+//@@ loop 1
+                    invariant xml.events() == xml.events(),
+                    decreases xml.left(),
+//@@ loop 4
+                    invariant xml.events() == xml.events(),
+                    decreases xml.left(),
+//@@ before /let last_folder_index = /
+            proof {
+                assert(is_prefix("xl/"@, sheet_path@));
+                assert(sheet_path@.subrange(0, 3)[2] == '/');
+                assert(sheet_path@[2] == '/');
+                assert(sheet_path@.contains('/'));
+            }
+//@@ after /let mut dims = get_dimension\([^;]*;/
+                let ghost d0 = dims;
+                let ghost hdr = table_meta.header_row_count as int;
+                let ghost tot = table_meta.totals_row_count as int;
+                let ghost ins: int = if table_meta.insert_row { 1 } else { 0 };
+//@@ before /new_tables\.push\(\(/
+                proof {
+                    //# C17.table_data_range_minus_header_and_totals_rows
+                    assert(dims.start.0 == d0.start.0 + hdr && dims.start.1 == d0.start.1 && dims.end.0 == d0.end.0 - tot - ins && dims.end.1 == d0.end.1);
+                }
 //@@ end
 //@@ endimpl
 
